@@ -231,6 +231,44 @@ func checkC17(c *Ctx) {
 				uses[w.Name].writes = append(uses[w.Name].writes, w)
 			}
 		}
+		// a package-level value whose METHODS mutate it is shared mutable state even if the variable is never assigned:
+		// *rand.Rand, bytes.Buffer, strings.Builder … are not safe for concurrent use (the top-level math/rand
+		// functions are)
+		for _, d := range uf.f.Decls {
+			gd, ok := d.(*ast.GenDecl)
+			if !ok || gd.Tok != token.VAR {
+				continue
+			}
+			for _, sp := range gd.Specs {
+				vs := sp.(*ast.ValueSpec)
+				for i, nm := range vs.Names {
+					var init ast.Expr
+					if i < len(vs.Values) {
+						init = vs.Values[i]
+					}
+					why := ""
+					if call, ok := init.(*ast.CallExpr); ok {
+						switch types.ExprString(call.Fun) {
+						case "rand.New", "bytes.NewBuffer", "bytes.NewBufferString", "bufio.NewWriter", "bufio.NewReader", "sha256.New", "md5.New", "json.NewEncoder", "json.NewDecoder":
+							why = types.ExprString(call.Fun) + "(…)"
+						}
+					}
+					if vs.Type != nil {
+						switch types.ExprString(vs.Type) {
+						case "bytes.Buffer", "strings.Builder", "rand.Rand":
+							why = "a " + types.ExprString(vs.Type)
+						}
+					}
+					if why != "" {
+						k := fmt.Sprintf("*%s var %s is a shared value that is not safe for concurrent use", uf.root.Suffix, holeFree(nm.Name))
+						if !seenVar[k] {
+							seenVar[k] = true
+							r.Bad("R17a", k, genPos(uf, nm.Pos()), "the generated package keeps "+why+" in a package-level variable: its methods mutate it without synchronisation, so two requests served at the same time race on it (for *rand.Rand: corrupted state, index-out-of-range panics)", nil)
+						}
+					}
+				}
+			}
+		}
 		for name, pos := range pkgVars {
 			key := fmt.Sprintf("*%s var %s", uf.root.Suffix, holeFree(name))
 			u := uses[name]
